@@ -47,6 +47,8 @@ def main(seed, tier):
         specs += [("props.ibantasks", "IbanTask", (cc, "validate")) for cc in ccs]
     specs += [("props.ibantasks", "IbanTask", (cc, "from-object")) for cc in ("DE", "GB", "NO", "None")]
     specs += [("props.bictasks", "BicTask", (m,)) for m in ("construct", "validate", "is_valid", "from-object")]
+    from props import c02
+    specs += c02.from_bban_flag_specs(["DE", "GB", "NO", "FR", "IT", "ES", "BE", "PL", "MT", "LC", "AO", "BR"])
     results = common.run_tasks(specs, seed, tier)
     n_fb, wit = from_bban_sweep(seed, 3 if tier == "thorough" else 1)
     results.append(dict(task="from_bban sweep", functions={}, files={}, paths=0, error=None, spec=["props.c05", "FromBbanReplay", []],
